@@ -34,7 +34,8 @@ NOT_MODELLED = [
     "NullIDMan (maps opened with preserve_ids=True are exempt by the property's definition)",
     "objects cloned by copy.copy / pickle (they bypass get_id)",
     "instance collapse (srctools.instancing) itself: it is built from Entity.copy(vmf_file=...), Solid.copy, add_ent/add_brush "
-    "and node_id.get_id, which are modelled; VMF.add_ents (same body as add_ent)",
+    "and node_id.get_id, which are modelled; the direct search collapses generated instances into generated maps and scans the ids; "
+    "VMF.add_ents (same body as add_ent)",
     "assigning obj.id directly; hidden entities (parsed after the visible ones)",
     "nodeid values whose conv_kv text parses as an int while int(value) itself raises (Enum members)",
 ]
@@ -428,6 +429,9 @@ def search(ctx):
         ctx.count('search-history')
         if viol is not None:
             _report(ctx, h, viol)
+    # instance collapse (srctools.instancing; not in the model): collapsing generated instance maps,
+    # the same file twice and two files, into a generated host map must leave the host's ids unique
+    _search_collapse(ctx, ctx.budget(150, 1500))
     # unit oracles when the driver could not be used
     if ctx.evaluations == 0:
         for sc in itertools.islice(_idman_scripts(ctx), 20000):
@@ -435,6 +439,46 @@ def search(ctx):
                 _check_idman(ctx, sc, _run_idman(sc))
         for init, sc in itertools.islice(_fix_cases(ctx), 20000):
             _check_fix_tables(ctx, init, sc, _run_fix(init, sc))
+
+
+def _collapse_case(host_doc, inst_docs, salt):
+    import io
+    from srctools.vmf import VMF
+    from srctools.keyvalues import Keyvalues
+    from srctools.math import Vec, Matrix
+    from srctools import instancing
+    parse = lambda d, s: VMF.parse(Keyvalues.parse(io.StringIO(c08_impl.doc_text(d, s)), 'doc'))
+    host = parse(host_doc, salt)
+    for j, d in enumerate(inst_docs):
+        f = instancing.InstanceFile(parse(d, salt + j))
+        inst = instancing.Instance('inst%d' % j, 'x.vmf', Vec(j * 128, 0, 0), Matrix(), instancing.FixupStyle.PREFIX)
+        instancing.collapse_one(host, inst, f, visgroup=(j == 0))
+        instancing.collapse_one(host, inst, f)
+    im = c08_impl.Impl()
+    im.maps = [host]
+    return im.violations(True)
+
+
+def _search_collapse(ctx, n):
+    import logging
+    logging.disable(logging.WARNING)
+    rng = ctx.rng
+    try:
+        for i in range(n):
+            hd = gen_doc(rng, False)
+            ids = [gen_doc(rng, False) for _ in range(rng.choice([1, 2]))]
+            try:
+                v = _collapse_case(hd, ids, i)
+            except Exception as e:
+                ctx.notes.append(f'search: collapse raised {type(e).__name__}: {e}')
+                ctx.count('collapse-raised')
+                continue
+            ctx.count('search-collapse')
+            if v and ('collapse:' + v[0][0]) not in _reported:
+                _reported.add('collapse:' + v[0][0])
+                ctx.witness('collapse-' + v[0][0], f'after instance collapse: {v[0][1]}', {'collapse': [hd, ids, i]})
+    finally:
+        logging.disable(logging.NOTSET)
 
 
 def _replay_input(inp):
@@ -445,6 +489,10 @@ def _replay_input(inp):
             print(' ', json.dumps(op), '->', json.dumps({'used': [m['used'] for m in o['maps']], 'regs': o['regs']})[:300])
         print('  violation:', viol)
         return viol is None
+    if 'collapse' in inp:
+        v = _collapse_case(*inp['collapse'])
+        print('  violations:', v)
+        return not v
     if 'idman_script' in inp:
         class C:  # minimal ctx
             w = []
@@ -494,7 +542,7 @@ LEVEL_TEXT = ("C08_fresh / C08_hint (IDMan.get_id returns a positive id that is 
               "reference-counting collection, nodeid set/del/pop, parse of documents with colliding ids, fixup edits): in every "
               "reachable state live objects of one kind in one map have pairwise distinct positive ids that are registered "
               "in the manager, and likewise for nodeid numbers. C08_double_release proves (decide +kernel) that with the "
-              "release sites of the original remove_ent the invariant fails on a 7-step history. The release sites are "
+              "release sites of the original source the invariant fails on 9-step histories (C08_double_remove, C08_node_release, C08_nonpositive: each part of the soundness condition is necessary). The release sites are "
               "re-extracted from vmf.py on every run (C08_gen_cfg, C08_gen_sites).")
 LEVEL_NOTE = ("Trusted: Lean kernel + propext/Classical.choice/Quot.sound; tools/gen_c08.py; the correspondence harness; "
               "CPython running __del__ exactly once when the last reference is dropped. NullIDMan (preserve_ids=True), "
